@@ -961,3 +961,291 @@ Proof.
   repeat split; try reflexivity; [exact Eval|].
   cbn [length]. rewrite app_length. cbn [length]. lia.
 Qed.
+
+(* ================================================================== *)
+(* H. every lexed block value is in the range                          *)
+(* ================================================================== *)
+
+Definition nolt (c : N) : Prop := (c =? LF) = false /\ (c =? CR) = false.
+
+Lemma Forall_skipn' {A} (Q : A -> Prop) n l : Forall Q l -> Forall Q (skipn n l).
+Proof.
+  revert l; induction n as [|n IH]; intros l H; [exact H|]. destruct l; [constructor|].
+  inversion H; subst. cbn. apply IH. assumption.
+Qed.
+
+Lemma trail_nolt d : is_trail d = true -> nolt d.
+Proof.
+  unfold is_trail, nolt, LF, CR. intros H. apply andb_true_iff in H as [H _]. apply N.leb_le in H.
+  split; apply N.eqb_neq; lia.
+Qed.
+
+Lemma lead_nolt c : is_lead c = true -> nolt c.
+Proof.
+  unfold is_lead, nolt, LF, CR. intros H. apply andb_true_iff in H as [H _]. apply N.leb_le in H.
+  split; apply N.eqb_neq; lia.
+Qed.
+
+(* every character of the raw lines is a character of the input and is no line terminator *)
+Lemma loop_inv (Qs : N -> Prop) f : forall pos ls cur lines s e raw ls' r,
+  Forall Qs s -> Forall (fun c => Qs c /\ nolt c) cur ->
+  Forall (Forall (fun c => Qs c /\ nolt c)) lines ->
+  read_block_loop f pos ls cur lines s = Ok (e, raw, ls', r) ->
+  Forall (Forall (fun c => Qs c /\ nolt c)) raw /\ raw <> [].
+Proof.
+  induction f as [|f IH]; intros pos ls cur lines s e raw ls' r Hs Hcur Hlines H; [discriminate|].
+  cbn [read_block_loop] in H. destruct s as [|c t]; [discriminate|].
+  inversion Hs as [|? ? Hc Ht]; subst.
+  destruct (starts3 34 34 34 (c :: t)) eqn:E3.
+  { injection H as _ Hraw _ _. rewrite <- Hraw. split.
+    - apply Forall_rev. constructor; [apply Forall_rev, Hcur|exact Hlines].
+    - intros E. apply (f_equal (@length _)) in E. rewrite rev_length in E. discriminate. }
+  destruct ((c =? 92) && starts3 34 34 34 t) eqn:Eb.
+  { apply andb_true_iff in Eb as [_ Eb]. apply starts3_true in Eb as (t' & ->).
+    inversion Ht as [|? ? Hq Ht1]; subst. inversion Ht1 as [|? ? _ Ht2]; subst.
+    inversion Ht2 as [|? ? _ Ht3]; subst.
+    assert (Q34 : Qs 34 /\ nolt 34) by (split; [exact Hq|split; reflexivity]).
+    eapply IH; [| | |exact H]; [exact Ht3| |exact Hlines].
+    repeat (constructor; [exact Q34|]). exact Hcur. }
+  destruct (c =? LF) eqn:El.
+  { eapply IH; [| | |exact H]; [exact Ht|constructor|].
+    constructor; [apply Forall_rev, Hcur|exact Hlines]. }
+  destruct (c =? CR) eqn:Ecr.
+  { destruct (peek_is (N.eqb LF) t).
+    - eapply IH; [| | |exact H]; [destruct t; [constructor|inversion Ht; assumption]|constructor|].
+      constructor; [apply Forall_rev, Hcur|exact Hlines].
+    - eapply IH; [| | |exact H]; [exact Ht|constructor|].
+      constructor; [apply Forall_rev, Hcur|exact Hlines]. }
+  destruct (is_scalar c).
+  { eapply IH; [| | |exact H]; [exact Ht| |exact Hlines].
+    constructor; [|exact Hcur]. split; [exact Hc|split; assumption]. }
+  destruct (is_lead c && peek_is is_trail t) eqn:Ep; [|discriminate].
+  apply andb_true_iff in Ep as [Elead Ep]. destruct t as [|d t']; [discriminate|]. cbn [peek_is] in Ep.
+  cbn [hd tl] in H. inversion Ht; subst.
+  eapply IH; [| | |exact H]; [assumption| |exact Hlines].
+  constructor; [split; [assumption|apply trail_nolt, Ep]|].
+  constructor; [|exact Hcur]. split; [exact Hc|split; assumption].
+Qed.
+
+(* ---- trimming ---- *)
+Lemma dwb_split M : exists A, M = A ++ drop_while_blank M /\ all_blank A /\
+  (drop_while_blank M = [] \/ line_blank (hd [] (drop_while_blank M)) = false).
+Proof.
+  induction M as [|x M IH].
+  - exists []. repeat split; [constructor|left; reflexivity].
+  - cbn [drop_while_blank]. destruct (line_blank x) eqn:E.
+    + destruct IH as (A & E1 & HA & Hd). exists (x :: A). split; [cbn; congruence|].
+      split; [constructor; assumption|exact Hd].
+    + exists []. repeat split; [constructor|right; exact E].
+Qed.
+
+Lemma dwb_snoc Y x : line_blank x = false -> drop_while_blank (Y ++ [x]) = drop_while_blank Y ++ [x].
+Proof.
+  intros H. induction Y as [|y Y IH]; cbn [app drop_while_blank]; [rewrite H; reflexivity|].
+  destruct (line_blank y); [exact IH|reflexivity].
+Qed.
+
+Lemma trim_split M : exists A B, M = A ++ trim M ++ B /\ all_blank A /\ all_blank B /\
+  (trim M = [] \/ (line_blank (hd [] (trim M)) = false /\ line_blank (last (trim M) []) = false)).
+Proof.
+  unfold trim. destruct (dwb_split M) as (A & E1 & HA & Hd).
+  destruct (dwb_split (rev (drop_while_blank M))) as (B' & E2 & HB & Hd2).
+  exists A, (rev B'). split; [|split; [exact HA|split; [apply all_blank_rev, HB|]]].
+  - rewrite E1 at 1. f_equal. rewrite <- rev_app_distr, <- E2, rev_involutive. reflexivity.
+  - destruct Hd as [Hd|Hd]; [left; rewrite Hd; reflexivity|].
+    destruct (drop_while_blank M) as [|x M1]; [left; reflexivity|]. cbn [hd] in Hd. right.
+    cbn [rev] in *. rewrite dwb_snoc in * by exact Hd.
+    rewrite rev_app_distr. cbn [rev app hd]. split; [exact Hd|].
+    rewrite <- (rev_involutive M1) at 1.
+    change (x :: rev (drop_while_blank (rev M1))) with ([x] ++ rev (drop_while_blank (rev M1))).
+    destruct (drop_while_blank (rev M1)) as [|z Z] eqn:EZ; [exact Hd|].
+    cbn [rev]. rewrite app_assoc, last_last.
+    destruct Hd2 as [Hd2|Hd2]; [destruct Z; discriminate|]. exact Hd2.
+Qed.
+
+Lemma all_blank_dwb Bk : all_blank Bk -> drop_while_blank Bk = [].
+Proof. intros H. rewrite <- (app_nil_r Bk). rewrite dwb_blank_prefix by exact H. reflexivity. Qed.
+
+Lemma trim_single x Bk : all_blank Bk -> trim (x :: Bk) = if line_blank x then [] else [x].
+Proof.
+  intros H. destruct (line_blank x) eqn:E.
+  - unfold trim. cbn [drop_while_blank]. rewrite E, all_blank_dwb by exact H. reflexivity.
+  - apply (trim_eq [] [x] Bk); [constructor|exact H|discriminate|exact E|exact E].
+Qed.
+
+(* ---- the common indent is attained ---- *)
+Lemma skipn_lws_zil l : line_blank l = false -> zero_indent_line (skipn (leading_ws l) l) = true.
+Proof.
+  induction l as [|c t IH]; [discriminate|]. unfold line_blank. cbn [leading_ws length].
+  destruct (is_blank_char c) eqn:Ec.
+  - cbn [Nat.eqb skipn]. exact IH.
+  - intros _. cbn [skipn]. unfold zero_indent_line, line_blank. cbn [leading_ws length]. rewrite Ec. reflexivity.
+Qed.
+
+Lemma ci_some_zil T k : common_indent T = Some k ->
+  existsb zero_indent_line (map (skipn k) T) = true.
+Proof.
+  revert k; induction T as [|l T IH]; intros k H; [discriminate|]. cbn [common_indent] in H.
+  cbn [map existsb]. destruct (line_blank l) eqn:El.
+  - rewrite (IH k H). apply orb_true_r.
+  - destruct (common_indent T) as [m|] eqn:Em.
+    + inversion H; subst k. destruct (Nat.min_spec (leading_ws l) m) as [[_ ->]|[_ ->]].
+      * rewrite skipn_lws_zil by exact El. reflexivity.
+      * rewrite (IH m eq_refl). apply orb_true_r.
+    + inversion H; subst k. rewrite skipn_lws_zil by exact El. reflexivity.
+Qed.
+
+Lemma ci_none_blank T : common_indent T = None -> all_blank T.
+Proof.
+  induction T as [|l T IH]; [constructor|]. cbn [common_indent]. destruct (line_blank l) eqn:El.
+  - intros H. constructor; [exact El|apply IH, H].
+  - destruct (common_indent T); discriminate.
+Qed.
+
+Lemma existsb_zil_in_trim M : existsb zero_indent_line M = true -> existsb zero_indent_line (trim M) = true.
+Proof.
+  destruct (trim_split M) as (A & B & E & HA & HB & _). intros H. rewrite E in H.
+  rewrite !existsb_app in H.
+  assert (Z : forall Bk, all_blank Bk -> existsb zero_indent_line Bk = false).
+  { induction 1 as [|x Bk Hx HBk IH]; [reflexivity|]. cbn [existsb]. rewrite IH.
+    unfold zero_indent_line. rewrite Hx. reflexivity. }
+  rewrite (Z A HA), (Z B HB), orb_false_r in H. exact H.
+Qed.
+
+(* ---- assembling the range predicate ---- *)
+Lemma range_intro v : has_cr v = false ->
+  (v = [] \/
+   (line_blank (hd [] (split_lf v)) = false /\ line_blank (last (split_lf v) []) = false /\
+    (length (split_lf v) = 1%nat \/ existsb zero_indent_line (tl (split_lf v)) = true \/
+     leading_ws (hd [] (split_lf v)) = 0%nat))) ->
+  in_block_range v = true.
+Proof.
+  intros Hcr H. unfold in_block_range. rewrite Hcr. cbn [negb andb].
+  destruct v as [|c t]; [reflexivity|]. destruct H as [H|(H1 & H2 & H3)]; [discriminate|].
+  rewrite (split_lines_lf _ Hcr). rewrite H1, H2. cbn [negb andb].
+  destruct H3 as [H3|[H3|H3]].
+  - rewrite H3. reflexivity.
+  - rewrite H3. apply orb_true_iff. left. apply orb_true_r.
+  - rewrite H3. apply orb_true_r.
+Qed.
+
+Lemma join_lf_forall (Q : N -> Prop) D : Q LF -> Forall (Forall Q) D -> Forall Q (join_lf D).
+Proof.
+  intros HQ. induction 1 as [|l D Hl HD IH]; [constructor|]. destruct D as [|m D']; [exact Hl|].
+  rewrite join_lf_cons by discriminate. apply Forall_app. split; [exact Hl|constructor; [exact HQ|exact IH]].
+Qed.
+
+Lemma dwb_forall (Q : list N -> Prop) M : Forall Q M -> Forall Q (drop_while_blank M).
+Proof.
+  induction 1 as [|x M Hx HM IH]; [constructor|]. cbn [drop_while_blank].
+  destruct (line_blank x); [exact IH|constructor; assumption].
+Qed.
+
+Lemma dedent_forall (Q : N -> Prop) raw : Forall (Forall Q) raw -> Forall (Forall Q) (dedent raw).
+Proof.
+  intros H. unfold dedent. destruct raw as [|first others]; [constructor|].
+  inversion H; subst. apply Forall_rev, dwb_forall, Forall_rev, dwb_forall.
+  constructor; [assumption|]. apply Forall_forall. intros x Hx. apply in_map_iff in Hx as (l & <- & Hl).
+  destruct (common_indent others); [|constructor]. apply Forall_skipn'.
+  match goal with H : Forall (Forall Q) others |- _ => rewrite Forall_forall in H; apply H, Hl end.
+Qed.
+
+Lemma dedent_in_range raw : Forall (Forall nolt) raw -> in_block_range (join_lf (dedent raw)) = true.
+Proof.
+  intros Hraw.
+  pose proof (dedent_forall nolt raw Hraw) as HD.
+  assert (Hcr : has_cr (join_lf (dedent raw)) = false).
+  { apply has_cr_false. apply join_lf_forall; [reflexivity|].
+    eapply Forall_impl; [|exact HD]. intros l. apply Forall_impl. intros c [_ Hc]. exact Hc. }
+  apply range_intro; [exact Hcr|].
+  destruct (dedent raw) as [|d0 D'] eqn:ED; [left; reflexivity|]. right.
+  assert (Hsplit : split_lf (join_lf (d0 :: D')) = d0 :: D').
+  { apply split_join; [discriminate|]. eapply Forall_impl; [|exact HD]. intros l. apply Forall_impl.
+    intros c [Hc _]. exact Hc. }
+  rewrite Hsplit. cbn [hd tl].
+  destruct raw as [|first others]; [discriminate|]. unfold dedent in ED. fold (trim (first :: map (fun l => match common_indent others with Some k => skipn k l | None => [] end) others)) in ED.
+  set (M := first :: map (fun l => match common_indent others with Some k => skipn k l | None => [] end) others) in *.
+  destruct (trim_split M) as (A & B & EM & HA & HB & [Ht|[Hh Hl]]); [congruence|].
+  rewrite ED in Hh, Hl. cbn [hd] in Hh. split; [exact Hh|]. split; [exact Hl|].
+  destruct (common_indent others) as [k|] eqn:Eci.
+  - assert (Hz : existsb zero_indent_line (trim M) = true).
+    { apply existsb_zil_in_trim. unfold M. cbn [existsb]. rewrite (ci_some_zil others k Eci). apply orb_true_r. }
+    rewrite ED in Hz. cbn [existsb] in Hz. apply orb_true_iff in Hz as [Hz|Hz].
+    + right. right. unfold zero_indent_line in Hz. apply andb_true_iff in Hz as [_ Hz]. apply Nat.eqb_eq, Hz.
+    + right. left. exact Hz.
+  - left. assert (Hb : all_blank (map (fun _ : list N => @nil N) others)).
+    { apply Forall_forall. intros x Hx. apply in_map_iff in Hx as (l & <- & _). reflexivity. }
+    unfold M in ED. rewrite (trim_single first _ Hb) in ED.
+    destruct (line_blank first); [discriminate|]. inversion ED; subst. reflexivity.
+Qed.
+
+Lemma punct_kind_not_block c k : punct_kind c = Some k -> (k =? K_BLOCK_STRING) = false.
+Proof.
+  unfold punct_kind.
+  repeat match goal with |- context [if ?b then _ else _] => destruct b end;
+    intros H; inversion H; reflexivity.
+Qed.
+
+(* the shape of a block string token, whatever the source *)
+Lemma read_token_block_inv cu s tk cu' r :
+  read_token cu s = Ok (tk, cu', r) -> tkind tk = K_BLOCK_STRING ->
+  exists f pos ls s1 e raw ls', adv s (length s - length s1) s1 /\
+    read_block_loop f pos ls [] [] s1 = Ok (e, raw, ls', r) /\ tvalue tk = join_lf (dedent raw).
+Proof.
+  unfold read_token. destruct (skip_ignored cu s) as [cu1 s1] eqn:Esk.
+  apply skip_ignored_spec in Esk as (g & Ag & _).
+  intros H Hk.
+  destruct s1 as [|c t]; [inversion H; subst; discriminate|].
+  destruct (c =? 35).
+  { destruct (comment_body t). inversion H; subst. discriminate. }
+  destruct (c =? 34).
+  { destruct (starts2 34 34 t) eqn:Eqq.
+    - cbv zeta in H.
+      destruct (read_block_loop (S (length (skipn 2 t))) (cpos cu1 + 3) (cls cu1) [] [] (skipn 2 t))
+        as [[[[e raw] ls'] rest]| | |] eqn:Eb; try discriminate.
+      inversion H; subst. exists (S (length (skipn 2 t))), (cpos cu1 + 3)%nat, (cls cu1), (skipn 2 t), e, raw, ls'.
+      split; [|split; [exact Eb|reflexivity]].
+      apply starts2_length in Eqq.
+      assert (A3 : adv (c :: t) 3 (skipn 2 t)).
+      { change 3%nat with (S 2). apply adv_cons. apply adv_skipn. exact Eqq. }
+      pose proof (adv_trans _ _ _ _ _ Ag A3) as A.
+      pose proof (adv_length _ _ _ A) as HL.
+      replace (length s - length (skipn 2 t))%nat with (g + 3)%nat by lia. exact A.
+    - destruct (read_string_loop (S (length t)) (S (cpos cu1)) [] t) as [[[e v] rest]| | |]; try discriminate.
+      inversion H; subst. discriminate. }
+  destruct (punct_kind c) as [k|] eqn:Epk.
+  { inversion H; subst. apply punct_kind_not_block in Epk. cbn in Hk. rewrite Hk in Epk. discriminate. }
+  destruct (is_digit c || (c =? 45)).
+  { destruct (read_number (cpos cu1) (c :: t)) as [[[e fl0] rest]| | |]; try discriminate.
+    inversion H; subst. destruct fl0; discriminate. }
+  destruct (is_name_start c).
+  { destruct (span is_name_continue t). inversion H; subst. discriminate. }
+  destruct (c =? 46); [|discriminate].
+  destruct (starts2 46 46 t); [|discriminate]. inversion H; subst. discriminate.
+Qed.
+
+Lemma adv_forall (Q : N -> Prop) s n r : adv s n r -> Forall Q s -> Forall Q r.
+Proof. intros [-> _]. apply Forall_skipn'. Qed.
+
+Theorem block_token_in_range cu s tk cu' r :
+  read_token cu s = Ok (tk, cu', r) -> tkind tk = K_BLOCK_STRING ->
+  in_block_range (tvalue tk) = true.
+Proof.
+  intros H Hk. destruct (read_token_block_inv _ _ _ _ _ H Hk) as (f & pos & ls & s1 & e & raw & ls' & _ & Hb & ->).
+  apply dedent_in_range.
+  destruct (loop_inv (fun _ => True) f pos ls [] [] s1 e raw ls' r) as [Hr _]; try exact Hb; try constructor.
+  - apply Forall_forall. intros; exact I.
+  - eapply Forall_impl; [|exact Hr]. intros l. apply Forall_impl. intros c [_ Hc]. exact Hc.
+Qed.
+
+Theorem block_token_scalars cu s tk cu' r :
+  scalars s -> read_token cu s = Ok (tk, cu', r) -> tkind tk = K_BLOCK_STRING ->
+  scalars (tvalue tk).
+Proof.
+  intros Hs H Hk. destruct (read_token_block_inv _ _ _ _ _ H Hk) as (f & pos & ls & s1 & e & raw & ls' & A & Hb & ->).
+  destruct (loop_inv (fun c => is_scalar c = true) f pos ls [] [] s1 e raw ls' r) as [Hr _];
+    try exact Hb; try constructor.
+  - eapply adv_forall; [exact A|exact Hs].
+  - unfold scalars. apply join_lf_forall; [reflexivity|]. apply dedent_forall.
+    eapply Forall_impl; [|exact Hr]. intros l. apply Forall_impl. intros c [Hc _]. exact Hc.
+Qed.
